@@ -50,11 +50,18 @@ def subdir(name):
 # so that edits to the .py files are what runs)
 
 _snap = None
+import threading
+_snap_lock = threading.Lock()
 
 
 def snapshot():
     """Copy /repo/Cython (without *.so, __pycache__, self-compiled .c) to
     scratch and return the directory to put on PYTHONPATH."""
+    with _snap_lock:
+        return _snapshot_locked()
+
+
+def _snapshot_locked():
     global _snap
     if _snap is not None:
         return _snap
